@@ -2,7 +2,7 @@
    GGLWE -> GGSW expansion (C04) into "every cell of the output GGSW encrypts the message of the input LWE" — the
    message being the constant m (constant mode) or the monomial X^(m * 2^log_gap_out) (exponent mode) — for every
    parameter set on which the rows of the ideal pipeline decode to that message ([cbt_rows_ok], a computation on the
-   lookup table the code builds); checked instances and the refutation of the trace path of exponent mode. *)
+   lookup table the code builds); checked instances at the test parameter set. *)
 From Coq Require Import ZArith List Bool Lia.
 From PV Require Import Gen.C15_gen Model.C15Uint Model.C15Cbt Proofs.C15Layout.
 Import ListNotations.
@@ -95,21 +95,10 @@ Lemma cbt_rows_ok_constant_test :
   forallb (fun ld => forallb (fun m => cbt_rows_ok 8 13 2 false ld 0 m) (zseq 0 (Z.to_nat (2 ^ ld)))) [1; 2] = true.
 Proof. vm_compute. reflexivity. Qed.
 
-(* exponent mode through the packing branch of post_process (log_gap_out <> log_gap_in = 7 resp. 6) *)
-Lemma cbt_rows_ok_exponent_pack_test :
-  forallb (fun lgo => forallb (fun m => cbt_rows_ok 8 13 2 true 1 lgo m) [0; 1]) [0; 1; 2; 3; 4; 5; 6] = true /\
-  forallb (fun lgo => forallb (fun m => cbt_rows_ok 8 13 2 true 2 lgo m) [0; 1; 2; 3]) [0; 1; 2; 3; 4; 5] = true.
+(* exponent mode, both branches of post_process: packing (log_gap_out <> log_gap_in) and trace only
+   (log_gap_out = log_gap_in = 7 for log_domain 1, 6 for log_domain 2) *)
+Lemma cbt_rows_ok_exponent_test :
+  log_gap_in 8 2 1 = 7 /\ log_gap_in 8 2 2 = 6 /\
+  forallb (fun lgo => forallb (fun m => cbt_rows_ok 8 13 2 true 1 lgo m) [0; 1]) [0; 1; 2; 3; 4; 5; 6; 7] = true /\
+  forallb (fun lgo => forallb (fun m => cbt_rows_ok 8 13 2 true 2 lgo m) [0; 1; 2; 3]) [0; 1; 2; 3; 4; 5; 6] = true.
 Proof. vm_compute. auto. Qed.
-
-(* exponent mode with log_gap_out = log_gap_in (the branch of post_process that only traces): the partial trace
-   keeps the multiples of 2^(log_gap_in - 1), so the table entry of the other gadget row survives in the row *)
-Lemma cbt_exponent_trace_path_refuted :
-  log_gap_in 8 2 1 = 7 /\ cbt_rows_ok 8 13 2 true 1 7 0 = false /\ cbt_rows_ok 8 13 2 true 1 7 1 = false /\
-  match cb_row 8 13 2 true 1 7 0 1 with
-  | Some q => (row_decoded 13 2 1 q 0 =? 1) && (row_decoded 13 2 1 q 192 =? - 8192)
-  | None => false
-  end = true.
-Proof. vm_compute. auto. Qed.
-
-(* what the repair (trace from log_n - log_gap_in instead of log_n - log_gap_in + 1) would give: see
-   work/proposed_fixes/C15_cbt_exponent_trace.diff *)
